@@ -46,21 +46,6 @@ def dtOfJson (j : Json) : R DT := do
   | "array" => pure (.arrayOf e (← fldOptNat j "fixed") (← itemOfJson (← fld j "dflt")))
   | k => throw s!"bad datatype kind {k}"
 
-def customOfJson (j : Json) : R Custom := do
-  match ← fldStr j "custom" with
-  | "std" => pure .std | "objId" => pure .objId | "propList" => pure .propList
-  | "wrName" => pure .wrName
-  | "computed" => pure (.computed (← itemOfJson (← fld j "cval")))
-  | s => throw s!"bad custom {s}"
-
-def descOfJson (j : Json) : R PropDesc := do
-  let dflt ← match fldOpt j "dflt" with
-    | none => pure none
-    | some d => do pure (some (← itemOfJson d))
-  pure { id := ← fldNat j "id", rank := ← fldNat j "rank", dt := ← dtOfJson (← fld j "dt"),
-         optional := ← fldBool j "opt", mutable := ← fldBool j "mut",
-         custom := ← customOfJson j, dflt := dflt }
-
 def itemsOfJson (j : Json) : R (List Item) := do (← j.getArr?).toList.mapM itemOfJson
 
 def pvalOfJson (j : Json) : R PVal := do
@@ -71,6 +56,21 @@ def pvalOfJson (j : Json) : R PVal := do
     match fldOpt j "arr" with
     | some x => pure (.arr (← itemsOfJson x))
     | none => pure (.lst (← itemsOfJson (← fld j "lst")))
+
+def customOfJson (j : Json) : R Custom := do
+  match ← fldStr j "custom" with
+  | "std" => pure .std | "objId" => pure .objId | "propList" => pure .propList
+  | "wrName" => pure .wrName
+  | "computed" => pure (.computed (← pvalOfJson (← fld j "cval")))
+  | s => throw s!"bad custom {s}"
+
+def descOfJson (j : Json) : R PropDesc := do
+  let dflt ← match fldOpt j "dflt" with
+    | none => pure none
+    | some d => do pure (some (← itemOfJson d))
+  pure { id := ← fldNat j "id", rank := ← fldNat j "rank", dt := ← dtOfJson (← fld j "dt"),
+         optional := ← fldBool j "opt", mutable := ← fldBool j "mut",
+         custom := ← customOfJson j, dflt := dflt }
 
 def oidOfJson (j : Json) : R Oid := do
   let a ← j.getArr?
@@ -165,7 +165,16 @@ def handle (d : Device) (j : Json) : R (Device × Json) := do
       let some row := Gen.Objects.objectTypes.find? (fun t => t.num = base)
         | throw s!"object type {base} is not in the generated table"
       let own ← (← fldArr j "own").toList.mapM descOfJson
-      let props := mergeProps own row.props
+      -- properties added to the instance (Object.add_property) come after everything else
+      let extra ← match fldOpt j "extra" with
+        | none => pure []
+        | some x => do (← x.getArr?).toList.mapM descOfJson
+      -- ... unless the identifier exists already: then the new descriptor takes its place
+      let repl ← match fldOpt j "replace" with
+        | none => pure []
+        | some x => do (← x.getArr?).toList.mapM descOfJson
+      let props := (mergeProps own row.props).map (fun p =>
+        match repl.find? (fun q => q.id = p.id) with | some q => q | none => p) ++ extra
       let cmd ← match fldOpt j "cmd" with
         | none => pure none
         | some c => do
